@@ -318,3 +318,87 @@ def rb_projection(trace, job):
                 b = ts[0]["bins"][_hash_of(job, kk) & (tlen - 1)]
                 ev.append({"e": "cmp", "n": len(b.get("nodes", [])), "cnt": cnt, "tlen": tlen})
     return {"id": trace["id"], "ev": ev}
+
+
+ACQ = {2, 3, 4}
+REL = {1, 3, 4}
+
+
+def hb_projection(trace, job, ordtab=None):
+    """atomic-operation stream -> Trace_HB input. Locations, mutexes and objects are renamed to small
+    numbers. Effective orderings: loads through reclaim::Atomic::load are sequentially consistent
+    (seize's protect) whatever ordering is passed; Atomic::clone is a Relaxed load."""
+    loc, obj = {}, {}
+
+    def lid(a):
+        if a not in loc:
+            loc[a] = len(loc) + 1
+        return loc[a]
+
+    def oid(a):
+        if a not in obj:
+            obj[a] = len(obj) + 1
+        return obj[a]
+    nthreads = len(job.get("threads", []))
+    main = nthreads
+    threads = list(range(nthreads + 1))
+    ev = []
+    allocated_by = {}
+    forked = False
+    joined = False
+    for e in trace["ev"]:
+        k = e.get("e")
+        t = e.get("t")
+        if k == "prefix_end":
+            ev.append({"e": "fork", "t": main, "a": 0, "acq": 0, "rel": 0})
+            forked = True
+            continue
+        if forked and not joined and t == main and k in ("step", "alloc", "deref", "call"):
+            ev.append({"e": "join", "t": main, "a": 0, "acq": 0, "rel": 0})
+            joined = True
+        if k == "alloc":
+            allocated_by[e["o"]] = t
+            ev.append({"e": "alloc", "t": t, "a": oid(e["o"]), "acq": 0, "rel": 0})
+        elif k == "deref":
+            o = e["o"]
+            if o in allocated_by and allocated_by[o] != t:
+                ev.append({"e": "deref", "t": t, "a": oid(o), "acq": 0, "rel": 0})
+        elif k == "unlock":
+            ev.append({"e": "unlock", "t": t, "a": lid(("m", e["a"])), "acq": 0, "rel": 0})
+        elif k == "step":
+            kk = e["k"]
+            if kk == "load":
+                ev.append({"e": "ld", "t": t, "a": lid(e["a"]), "acq": 1, "rel": 0})
+            elif kk == "clone":
+                ev.append({"e": "ld", "t": t, "a": lid(e["a"]), "acq": 0, "rel": 0})
+            elif kk == "store":
+                ev.append({"e": "st", "t": t, "a": lid(e["a"]), "acq": 0, "rel": 1 if e["ord"] in REL else 0})
+            elif kk == "swap":
+                ev.append({"e": "rmw", "t": t, "a": lid(e["a"]), "acq": 1 if e["ord"] in ACQ else 0, "rel": 1 if e["ord"] in REL else 0})
+            elif kk == "cas":
+                if e["ok"]:
+                    ev.append({"e": "rmw", "t": t, "a": lid(e["a"]), "acq": 1 if e["ord"] in ACQ else 0, "rel": 1 if e["ord"] in REL else 0})
+                else:
+                    ev.append({"e": "ld", "t": t, "a": lid(e["a"]), "acq": 1 if e["ordf"] in ACQ else 0, "rel": 0})
+            elif kk == "word":
+                acc = e["acc"]
+                if ordtab is not None:
+                    # the ordering the access really uses, read from the source at the hook's line
+                    real = ordtab.get(("node.rs" if e["w"] == "ls" else "map.rs", e.get("ln", 0)))
+                    if real is not None:
+                        e = dict(e, ord=real[0], ordf=real[1])
+                if acc == "load":
+                    ev.append({"e": "ld", "t": t, "a": lid(e["a"]), "acq": 1 if e["ord"] in ACQ else 0, "rel": 0})
+                elif acc == "store":
+                    ev.append({"e": "st", "t": t, "a": lid(e["a"]), "acq": 0, "rel": 1 if e["ord"] in REL else 0})
+                elif acc == "cas" and not e["ok"]:
+                    ev.append({"e": "ld", "t": t, "a": lid(e["a"]), "acq": 1 if e.get("ordf", 0) in ACQ else 0, "rel": 0})
+                else:
+                    ev.append({"e": "rmw", "t": t, "a": lid(e["a"]), "acq": 1 if e["ord"] in ACQ else 0, "rel": 1 if e["ord"] in REL else 0})
+            elif kk == "lock":
+                ev.append({"e": "lock", "t": t, "a": lid(("m", e["a"])), "acq": 0, "rel": 0})
+            elif kk == "park":
+                ev.append({"e": "park", "t": t, "a": 0, "acq": 0, "rel": 0})
+            elif kk == "unpark" and e.get("u", -1) >= 0:
+                ev.append({"e": "unpark", "t": t, "a": e["u"], "acq": 0, "rel": 0})
+    return {"id": trace["id"], "threads": threads, "ev": ev}
